@@ -103,6 +103,8 @@ def candidates(rng, shapes):
         shape_param = t
         if len(t) == 1 and rng.random() < 0.3:
             shape_param = t[0]
+        if rng.random() < 0.25:
+            return "reshape", {"shape": shape_param, "order": rng.choice(["F", "C", "A"])}, [i]
         return "reshape", {"shape": shape_param}, [i]
     if fam == "transpose":
         if rng.random() < 0.3:
@@ -208,6 +210,8 @@ def model_of(fn, p, shapes):
     s = shapes[0]
     nd = len(s)
     if fn == "reshape":
+        if p.get("order", "C") != "C":
+            return None                      # the TLA+ gather map of reshape is the C-order one
         t = p["shape"] if isinstance(p["shape"], list) else [p["shape"]]
         size = int(numpy.prod(s, dtype=int))
         t = list(t)
